@@ -1,6 +1,7 @@
 import TempestVerif.Model.FS
 import TempestVerif.Model.Checkpoint
 import TempestVerif.Gen.Checkpoint
+import TempestVerif.Gen.CheckpointSM
 import TempestVerif.Gen.Tables
 import Mathlib.Tactic
 /-
@@ -397,6 +398,92 @@ example : classify ([.openTrunc "a.tmp", .write "a.tmp" 10, .write "a.tmp" 20, .
 example : classify ([.openTrunc "a.tmp", .write "a.tmp" 10, .flush "a.tmp", .close "a.tmp", .rename "a.tmp" "a"] : List (FsOpOf Nat)) "a" = none := by decide
 example : classify ([.openTrunc "a", .write "a" 10, .flush "a", .fsync "a", .close "a", .rename "a" "a"] : List (FsOpOf Nat)) "a" = none := by decide
 example : classify ([.openTrunc "a", .write "a" 10, .close "a"] : List (FsOpOf Nat)) "a" = some .direct := by decide
+
+/-! ### the StateManager's own `save_state` (second generated program) -/
+
+theorem lookup_erase_eq (p : Path) (fs : FS) : lookup p (erase p fs) = none := by
+  induction fs with
+  | nil => rfl
+  | cons e r ih =>
+    obtain ⟨q, c⟩ := e
+    by_cases h : q = p <;> simp [erase, lookup, h, ih]
+
+/-- OBLIGATION: the operation sequence extracted from `StateManager.save_state` is the temp-file protocol -/
+theorem C08_gen_sm_protocol : classify Gen.Checkpoint.stateManagerSave "final" = some .tempRename := by decide
+
+/-- OBLIGATION: how the two temporary names are derived from the final name in the source: both saves APPEND ".temp"
+    to the file name (`with_name(name + ".temp")`).  The pre-fix shape of StateManager.save_state, `with_suffix(".temp")`,
+    is extracted as "replace_suffix" and makes this obligation fail. -/
+theorem C08_gen_tmp_names :
+    Gen.Checkpoint.tmpNameKind = "append" ∧ Gen.Checkpoint.tmpSuffix = ".temp" ∧
+    Gen.Checkpoint.smTmpNameKind = "append" ∧ Gen.Checkpoint.smTmpSuffix = ".temp" ∧
+    (Gen.Checkpoint.smRenameCall = "os.rename" ∨ Gen.Checkpoint.smRenameCall = "os.replace") := by decide
+
+/-- the extracted shape, instantiated with the names `save_state` computes, IS the modelled program -/
+theorem sm_program_eq (dir final : Path) (payload : Bytes) :
+    instantiate dir (final ++ Gen.Checkpoint.smTmpSuffix) final payload Gen.Checkpoint.stateManagerSave = smSave dir final payload := by
+  simp [instantiate, substPath, Gen.Checkpoint.stateManagerSave, Gen.Checkpoint.smTmpSuffix, smSave, tmpOf]
+
+/-- `C08_state_manager_save_crash_safe`: for the program extracted from `StateManager.save_state`, for EVERY final name
+    (no condition on its suffix: the temporary name `final ++ ".temp"` differs from every final name), every payload, from
+    ANY file system (no file, an old complete file, a stale temporary of an earlier crash …): in EVERY crash state the
+    content under the final name is the old content or the complete new payload — never a truncated file. -/
+theorem C08_state_manager_save_crash_safe (dir final : Path) (payload : Bytes) (fs fs' : FS)
+    (hm : fs' ∈ crashStates (instantiate dir (final ++ Gen.Checkpoint.smTmpSuffix) final payload
+                              Gen.Checkpoint.stateManagerSave) fs) :
+    lookup final fs' = lookup final fs ∨ lookup final fs' = some payload := by
+  rw [sm_program_eq] at hm
+  have h : smSave dir final payload = tempShape [dir] (tmpOf final) final [payload] := by
+    simp [smSave, tempShape]
+  rw [h] at hm
+  simpa using tempShape_atomic [dir] (tmpOf_ne final) [payload] fs fs' hm
+
+/-- the complete save leaves the payload under the final name and NO file under the temporary name -/
+theorem C08_state_manager_save_completes (dir final : Path) (payload : Bytes) (fs : FS) :
+    lookup final (run fs (smSave dir final payload)) = some payload ∧
+    lookup (tmpOf final) (run fs (smSave dir final payload)) = none := by
+  have ht := tmpOf_ne final
+  constructor
+  · simp [smSave, run, exec, lookup_put_eq, ht]
+  · simp [smSave, run, exec, lookup_put_eq, ht, lookup_put_ne ht, lookup_erase_eq]
+
+/-- `C08_sm_temp_name_injective`: distinct final names have distinct temporary names (no two checkpoints of a
+    directory share a temporary file any more; with the pre-fix `with_suffix` naming all `stem.*` shared `stem.temp`) -/
+theorem C08_sm_temp_name_injective (a b : Path) (h : tmpOf a = tmpOf b) : a = b :=
+  (String.append_left_inj ".temp").mp h
+
+/-- MODEL OF THE PRE-FIX CODE (before /repo b1898a0, `temp = Path(path).with_suffix(".temp")`; witness F27): when the final
+    name itself ends in ".temp" the temporary name IS the final name, the save writes in place, and every truncation of
+    the payload is a crash content under the final name. -/
+theorem C08_state_manager_temp_suffix_in_place (n : PName) (hs : n.suffix = ".temp") (payload : Bytes) (fs : FS)
+    (k : Nat) (hk : k ≤ payload.length) :
+    ∃ fs' ∈ crashStates (smSaveOld n payload) fs, lookup n.path fs' = some (payload.take k) := by
+  have hp : n.withSuffix ".temp" = n.path := by simp [PName.withSuffix, PName.path, hs]
+  refine ⟨exec (exec fs (.openTrunc n.path)) (.write n.path (payload.take k)), ?_, ?_⟩
+  · simp only [smSaveOld, hp, crashStates, during, exec, List.mem_append, List.mem_map, List.mem_range]
+    right; right; left
+    exact ⟨k, by omega, rfl⟩
+  · simp [exec, lookup_put_eq]
+
+/-- the sampler's program, instantiated the same way, is `tempRename` (so `C08_tempRename_atomic` is a statement
+    about the extracted program, not only about its classification) -/
+theorem C08_sampler_save_crash_safe (dir final : Path) (payload : Bytes) (fs fs' : FS)
+    (hm : fs' ∈ crashStates (instantiate dir (final ++ Gen.Checkpoint.tmpSuffix) final payload Gen.Checkpoint.saveOps) fs) :
+    lookup final fs' = lookup final fs ∨ lookup final fs' = some payload := by
+  have h : instantiate dir (final ++ Gen.Checkpoint.tmpSuffix) final payload Gen.Checkpoint.saveOps
+      = tempShape [dir] (tmpOf final) final [payload] := by
+    simp [instantiate, substPath, Gen.Checkpoint.saveOps, Gen.Checkpoint.tmpSuffix, tempShape, tmpOf]
+  rw [h] at hm
+  simpa using tempShape_atomic [dir] (tmpOf_ne final) [payload] fs fs' hm
+
+example : ((crashStates (smSave "ck/" "ck/a.state" [2, 2, 2, 2]) [("ck/a.state", [1, 1, 1]), ("ck/a.state.temp", [9])]).map
+    (lookup "ck/a.state")).eraseDups = [some [1, 1, 1], some [2, 2, 2, 2]] := by decide
+-- a final name that already ends in ".temp": now atomic too …
+example : ((crashStates (smSave "" "x.temp" [2, 2]) [("x.temp", [1, 1, 1])]).map (lookup "x.temp")).eraseDups
+    = [some [1, 1, 1], some [2, 2]] := by decide
+-- … whereas the pre-fix naming wrote it in place
+example : ((crashStates (smSaveOld ⟨"", "x", ".temp"⟩ [2, 2]) [("x.temp", [1, 1, 1])]).map (lookup "x.temp")).eraseDups
+    = [some [1, 1, 1], some [], some [2], some [2, 2]] := by decide
 
 end FilePart
 
@@ -915,6 +1002,89 @@ theorem C08_pool_detach {P R E B : Type} (pickle : Core P R → Except E B) (c :
 /-- OBLIGATION on the source: the pool is detached before `dill.dumps(self)` and re-attached in a `finally` -/
 theorem C08_gen_pool : Gen.Checkpoint.poolDetached = true ∧ Gen.Checkpoint.poolReattachInFinally = true := by decide
 
+/-! ### the StateManager's own `load_state` / `from_dict` / `save_state(exclude=…)` -/
+
+/-- `C08_sm_merge`: `load_state` into ANY manager (fresh or not) is a merge — a key the loaded section holds takes
+    the loaded value, every other key keeps what the manager had; an absent section changes nothing. -/
+theorem C08_sm_merge (s0 : State) (d : Dict) :
+    (∀ k, lookup k (updateFromDict s0 d).current = match d.cur with
+        | some c => (match lookup k c with | some v => some v | none => lookup k s0.current)
+        | none => lookup k s0.current) ∧
+    (∀ k, lookup k (updateFromDict s0 d).history = match d.hist with
+        | some h => (match lookup k h with | some l => some l | none => lookup k s0.history)
+        | none => lookup k s0.history) ∧
+    (updateFromDict s0 d).nDim = (match d.nDim with | some n => n | none => s0.nDim) := by
+  refine ⟨?_, ?_, rfl⟩
+  · intro k
+    cases hc : d.cur with
+    | none => simp [updateFromDict, hc]
+    | some c =>
+      simp only [updateFromDict, hc]
+      rw [lookup_updateAll]
+      cases lookup k c <;> rfl
+  · intro k
+    cases hh : d.hist with
+    | none => simp [updateFromDict, hh]
+    | some h =>
+      simp only [updateFromDict, hh]
+      rw [lookup_updateAll]
+      cases lookup k h <;> rfl
+
+/-- an `exclude` list that names none of the three top-level keys (the default does not) removes nothing -/
+theorem excludeDict_id (ex : List String) (h : ex.contains "_current" = false ∧ ex.contains "_history" = false ∧ ex.contains "n_dim" = false)
+    (d : Dict) : excludeDict ex d = d := by
+  obtain ⟨h1, h2, h3⟩ := h
+  unfold excludeDict
+  rw [h1, h2, h3]
+  rfl
+
+theorem smDefaultExclude_harmless :
+    smDefaultExclude.contains "_current" = false ∧ smDefaultExclude.contains "_history" = false ∧
+    smDefaultExclude.contains "n_dim" = false := by decide
+
+/-- `C08_state_manager_restore`: `StateManager.save_state(p)` (any `exclude` that names none of `_current`, `_history`,
+    `n_dim`; in particular the default) followed by `load_state(p)` into ANY manager `f` succeeds and gives, for every
+    key `s` defines, exactly `s`'s value — `None` included, there is no defaults loop here — and `s`'s history list;
+    keys `s` does not define keep `f`'s entries; `n_dim = s.n_dim`.  For a fresh `f` that is `s` itself. -/
+theorem C08_state_manager_restore (enc : Dict → Bytes) (dec : Bytes → Option Dict) (hdec : ∀ d, dec (enc d) = some d)
+    (ex : List String) (hex : ex.contains "_current" = false ∧ ex.contains "_history" = false ∧ ex.contains "n_dim" = false)
+    (s f : State) :
+    ∃ s', smLoad dec f (enc (smSaveDict ex s)) = some s' ∧
+      (∀ k, lookup k s'.current = match lookup k s.current with | some v => some v | none => lookup k f.current) ∧
+      (∀ k, lookup k s'.history = match lookup k s.history with | some l => some l | none => lookup k f.history) ∧
+      s'.nDim = s.nDim := by
+  refine ⟨updateFromDict f (toDict s), ?_, ?_, ?_, rfl⟩
+  · simp [smLoad, smSaveDict, excludeDict_id ex hex, hdec]
+  · intro k; exact (C08_sm_merge f (toDict s)).1 k
+  · intro k; exact (C08_sm_merge f (toDict s)).2.1 k
+
+/-- `C08_from_dict_to_dict`: `StateManager.from_dict(sm.to_dict())` holds `sm`'s value under every key `sm` defines
+    (and `None` / an empty list under a state key `sm` lacks), with `sm`'s `n_dim`. -/
+theorem C08_from_dict_to_dict (s : State) :
+    (∀ k, lookup k (fromDict (toDict s)).current = match lookup k s.current with | some v => some v | none => lookup k (init s.nDim).current) ∧
+    (∀ k, lookup k (fromDict (toDict s)).history = match lookup k s.history with | some l => some l | none => lookup k (init s.nDim).history) ∧
+    (fromDict (toDict s)).nDim = s.nDim := by
+  refine ⟨?_, ?_, rfl⟩
+  · intro k; exact (C08_sm_merge (init s.nDim) (toDict s)).1 k
+  · intro k; exact (C08_sm_merge (init s.nDim) (toDict s)).2.1 k
+
+/-- what `exclude` can do: dropping a section leaves that part of the receiving manager untouched -/
+theorem C08_sm_exclude_section (enc : Dict → Bytes) (dec : Bytes → Option Dict) (hdec : ∀ d, dec (enc d) = some d) (s f : State) :
+    (smLoad dec f (enc (smSaveDict ["_history"] s))).map (·.history) = some f.history ∧
+    (smLoad dec f (enc (smSaveDict ["_current"] s))).map (·.current) = some f.current ∧
+    (smLoad dec f (enc (smSaveDict ["n_dim"] s))).map (·.nDim) = some f.nDim := by
+  simp [smLoad, smSaveDict, excludeDict, hdec, updateFromDict, toDict]
+
+/-- OBLIGATIONS on state_manager.py: the pickled dictionary is `{_current, _history, n_dim}` of the manager, the
+    default `exclude` and its loop are the modelled ones, `load_state` = unpickle + `update_from_dict`,
+    `from_dict` = `cls(state_dict.get("n_dim", 1))` + `update_from_dict`, `update_from_dict` has its three guarded sections -/
+theorem C08_gen_sm_io :
+    Gen.Checkpoint.smDictKeys = ["_current", "_history", "n_dim"] ∧ Gen.Checkpoint.smDictValuesOk = true ∧
+    Gen.Checkpoint.smExcludeDefault = smDefaultExclude ∧ Gen.Checkpoint.smExcludeLoopShape = true ∧
+    Gen.Checkpoint.smLoadMethod = "update_from_dict" ∧ Gen.Checkpoint.smLoadShape = true ∧
+    Gen.Checkpoint.fromDictViaUpdate = true ∧ Gen.Checkpoint.fromDictDefaultNDim = 1 ∧
+    Gen.Checkpoint.updateFromDictShape = true := by decide
+
 end StatePart
 
 /-! ## Part C — the two parts together -/
@@ -976,6 +1146,15 @@ example : periodicSaves 0 1 3 = [1, 2] := by decide
 example : (pickleDetached (fun (c : Core Nat String) => if c.pool.isSome then Except.error "cannot pickle pool" else Except.ok c.rest.length)
     ⟨some 7, "core"⟩) = (⟨some 7, "core"⟩, Except.ok 4) := by rfl
 example : (pickleDetached (fun (_ : Core Nat String) => (Except.error "boom" : Except String Nat)) ⟨some 7, "core"⟩).1.pool = some 7 := by decide
+
+/-- StateManager round trip: a state with `steps = None` comes back with `steps = None` (no defaults), into a manager
+    that had other data the loaded keys override and `assignments` (absent from the file) stays -/
+example : (let s := { init 2 with current := setKey "iter" (.int 3) (init 2).current }
+           let f : State := { current := [("assignments", .arr 9), ("iter", .int 7)], history := [("u", [.arr 1])], nDim := 5 }
+           let r := updateFromDict f (smSaveDict smDefaultExclude { s with current := s.current.filter (·.1 != "assignments") })
+           (lookup "iter" r.current, lookup "steps" r.current, lookup "assignments" r.current, lookup "u" r.history, r.nDim))
+    = (some (.int 3), some .none, some (.arr 9), some [], 2) := by decide
+example : (fromDict { cur := some [("beta", .real 5)], hist := none, nDim := none }).nDim = 1 := by decide
 
 end Examples
 
